@@ -205,6 +205,30 @@ def standin_ionq(tier, seed):
             fails.append(dict(args=dict(circuit=repr(c), metadata=repr(md)), failed="measurement-metadata", clause=f"keys map to {got}, expected {want_md}"))
         if len(fails) >= 4:
             break
+    # circuits outside the vocabulary go through the vendor's own compilation first (IonQTargetGateset and the native gatesets): the payload of the
+    # COMPILED circuit still means the submitted circuit; three-qubit gates and their powers on every order of the qubits included
+    import itertools as _it
+
+    q3 = cirq.LineQubit.range(3)
+    wide = [g.on(*[q3[i] for i in perm]) for g in (cirq.CCX, cirq.CCX ** 0.5, cirq.CCX ** -0.25, cirq.CCZ, cirq.CCZ ** 0.3, cirq.CSWAP, cirq.ControlledGate(cirq.Y ** 0.4, num_controls=2)) for perm in ((0, 1, 2), (2, 0, 1), (1, 2, 0))]
+    narrow = [cirq.ISWAP(q3[0], q3[2]) ** 0.3, cirq.FSimGate(0.4, 0.7)(q3[1], q3[0]), cirq.CZ(q3[2], q3[1]) ** 0.6, cirq.PhasedXZGate(x_exponent=0.3, z_exponent=0.2, axis_phase_exponent=0.7)(q3[1]), cirq.H(q3[2]) ** 0.5]
+    gatesets = [("IonQTargetGateset", cirq_ionq.IonQTargetGateset())] + [(nm, getattr(cirq_ionq, nm)()) for nm in ("AriaNativeGateset", "ForteNativeGateset") if hasattr(cirq_ionq, nm)]
+    for (gname, gs_), op in _it.product(gatesets, wide + narrow):
+        if gname != "IonQTargetGateset" and op in wide and tier == "quick" and wide.index(op) % 3:
+            continue
+        src = cirq.Circuit(cirq.H(q3[0]), op, cirq.measure(*q3, key="k"))
+        cases += 1
+        try:
+            compiled = cirq.optimize_for_target_gateset(src, gateset=gs_)
+            sp = ser.serialize_single_circuit(compiled)
+            U = interpret_ionq(sp.input)
+        except Exception as ex:
+            fails.append(dict(args=dict(circuit=repr(src), gateset=gname), failed="compiled-payload-raised", clause=f"compiling with {gname} and serializing raised {ex!r}"))
+            continue
+        want = refsim.ref_unitary(cirq.Circuit(cirq.H(q3[0]), op), list(q3))
+        if sp.input["qubits"] != 3 or not refsim.equal_up_to_global_phase(U, want, atol=1e-5):
+            fails.append(dict(args=dict(circuit=repr(src), gateset=gname, payload=json.dumps(sp.input)[:500]), failed="compiled-payload-unitary",
+                              clause=f"the payload of the circuit compiled with {gname} is not the submitted circuit's unitary (up to global phase)"))
     # results: every outcome assigned to the right key and qubit (exhaustive small)
     for n in (2, 3):
         for targets in itertools.permutations(range(n), 2):
